@@ -888,6 +888,9 @@ pub enum ForKind {
     Msm(usize),
     /// `msm_by_bounded_scalars` with n pairs, scalars below 2^bits
     MsmBounded(usize, usize),
+    /// `msm_by_bounded_scalars` where ONE assigned base is used in every term (the chip merges
+    /// such terms by adding their scalars); term i has its own bit bound
+    MsmRep(Vec<usize>),
     /// `msm_by_le_bits` with n pairs, scalars given as `bits` little-endian bits
     MsmLeBits(usize, usize),
     /// `mul_by_constant`, constant in hex (reduced mod the scalar field)
@@ -911,6 +914,7 @@ impl ForKind {
             ForKind::Negate => "negate".into(),
             ForKind::Msm(n) => format!("msm({n})"),
             ForKind::MsmBounded(n, b) => format!("msm_by_bounded_scalars({n},bits={b})"),
+            ForKind::MsmRep(bs) => format!("msm_by_bounded_scalars(one base x{},bits={bs:?})", bs.len()),
             ForKind::MsmLeBits(n, b) => format!("msm_by_le_bits({n},bits={b})"),
             ForKind::MulConst(c) => format!("mul_by_constant({c})"),
             ForKind::FromCoords => "point_from_coordinates".into(),
@@ -928,11 +932,12 @@ impl ForKind {
             ForKind::Add | ForKind::IsEqual => (2, 0),
             ForKind::Select => (2, 1),
             ForKind::Msm(n) | ForKind::MsmBounded(n, _) | ForKind::MsmLeBits(n, _) => (*n, *n),
+            ForKind::MsmRep(bs) => (1, bs.len()),
             ForKind::FromCoords => (0, 2),
         }
     }
     pub fn is_msm(&self) -> bool {
-        matches!(self, ForKind::Msm(_) | ForKind::MsmBounded(..) | ForKind::MsmLeBits(..))
+        matches!(self, ForKind::Msm(_) | ForKind::MsmBounded(..) | ForKind::MsmLeBits(..) | ForKind::MsmRep(_))
     }
 }
 
@@ -1035,6 +1040,22 @@ fn for_eval_inner(curve: Curve, kind: &ForKind, x: &[BigUint]) -> Ev<FOut> {
             }
             FOut::Points(vec![acc])
         }
+        ForKind::MsmRep(bs) => {
+            if !all_in_subgroup(&pts) {
+                return Ev::Vacuous;
+            }
+            let mut acc: WPoint = None;
+            for (k, b) in ks.iter().zip(bs) {
+                if *k >= c.n {
+                    return Ev::OutOfDomain;
+                }
+                if k.bits() > *b as u64 {
+                    return Ev::Vacuous;
+                }
+                acc = w.add(&acc, &w.mul(&pts[0], k));
+            }
+            FOut::Points(vec![acc])
+        }
         ForKind::MulConst(k) => {
             if !all_in_subgroup(&pts) {
                 return Ev::Vacuous;
@@ -1088,7 +1109,7 @@ impl ForOp {
     fn scalar_width(&self) -> usize {
         let c = self.ctx();
         match &self.kind {
-            ForKind::Msm(_) | ForKind::MsmBounded(..) => c.ns,
+            ForKind::Msm(_) | ForKind::MsmBounded(..) | ForKind::MsmRep(_) => c.ns,
             ForKind::MsmLeBits(_, b) => n_chunks254(*b),
             ForKind::FromCoords => c.nl,
             _ => 1,
@@ -1104,7 +1125,7 @@ impl ForOp {
         }
         for k in &x[3 * np..] {
             match &self.kind {
-                ForKind::Msm(_) | ForKind::MsmBounded(..) => v.extend(c.enc_scalar(k)),
+                ForKind::Msm(_) | ForKind::MsmBounded(..) | ForKind::MsmRep(_) => v.extend(c.enc_scalar(k)),
                 ForKind::MsmLeBits(_, b) => v.extend(enc_bits254(k, *b)),
                 ForKind::FromCoords => v.extend(c.enc_coord(k)),
                 _ => v.push(big_to_f(k)),
@@ -1233,6 +1254,18 @@ macro_rules! foreign_circuit {
                     };
                     chip.constrain_as_public_input(l, &r)
                 }
+                ForKind::MsmRep(bs) => {
+                    let mut bounded: Vec<($AS, usize)> = vec![];
+                    for (i, b) in bs.iter().enumerate() {
+                        let s = assign_scalar(std, l, kv(i).map(|k| from_big::<$Scalar>(&k)))?;
+                        expose_scalar(std, l, &s)?;
+                        bounded.push((s, *b));
+                    }
+                    // the same assigned cells in every term
+                    let bases: Vec<P> = bs.iter().map(|_| ps[0].clone()).collect();
+                    let r = chip.msm_by_bounded_scalars(l, &bounded, &bases)?;
+                    chip.constrain_as_public_input(l, &r)
+                }
                 ForKind::MsmLeBits(n, nb) => {
                     let mut all: Vec<Vec<AssignedBit<F>>> = vec![];
                     for i in 0..*n {
@@ -1343,7 +1376,7 @@ impl Op for ForOp {
         for i in 0..ns {
             let ch = &public[np * pw + i * w..np * pw + (i + 1) * w];
             let k = match &self.kind {
-                ForKind::Msm(_) | ForKind::MsmBounded(..) => c.dec_scalar(ch).ok()?,
+                ForKind::Msm(_) | ForKind::MsmBounded(..) | ForKind::MsmRep(_) => c.dec_scalar(ch).ok()?,
                 ForKind::MsmLeBits(_, b) => dec_bits254(ch, *b)?,
                 ForKind::FromCoords => c.dec_coord(ch).ok()?,
                 _ => f_to_big(&ch[0]),
@@ -2058,6 +2091,14 @@ pub fn build_for(curve: Curve, kind: &ForKind, pc: &[u8], kc: &[u8], seed: u64) 
             }
             nt |= *n >= 2;
         }
+        ForKind::MsmRep(bs) => {
+            for (i, b) in bs.iter().enumerate() {
+                let cl = kc.get(i).copied().unwrap_or(0);
+                x.push(scalar_of(cl, &w.n, *b, false, &mut rng) % &w.n);
+                labels.push(kc_label(cl).to_string());
+            }
+            nt = true;
+        }
         ForKind::MulConst(k) => {
             labels.push(format!("const={}", if k.len() > 8 { "big" } else { k }));
             nt |= k.len() <= 2 || k.len() > 30;
@@ -2174,6 +2215,7 @@ pub fn visit_ops<V: OpVisitor>(v: &mut V, quick: bool, seed: u64) {
             fv(v, ForKind::Msm(1), &[(&[0], &[0]), (&[0], &[1]), (&[0], &[2]), (&[0], &[4]), (&[1], &[0])]);
             fv(v, ForKind::Msm(2), &[(&[0, 0], &[0, 0]), (&[0, 3], &[4, 2]), (&[0, 4], &[0, 0]), (&[1, 0], &[1, 4])]);
             fv(v, ForKind::MsmBounded(2, 64), &[(&[0, 0], &[0, 0]), (&[0, 1], &[7, 1]), (&[0, 4], &[2, 2])]);
+            fv(v, ForKind::MsmRep(vec![7, 7, 7]), &[(&[0], &[7, 7, 7]), (&[0], &[0, 1, 2]), (&[1], &[7, 0, 7])]);
             fv(v, ForKind::MsmLeBits(1, 260), &[(&[0], &[0]), (&[0], &[1]), (&[0], &[5]), (&[0], &[7]), (&[2], &[6])]);
         }
     }
